@@ -741,7 +741,9 @@ type Guard struct {
 
 // passEdges returns the pass edges of g in fn: for each If matching g, the successor edge taken
 // when the guard holds.
-func passEdges(fn *ssa.Function, g Guard) (map[Edge]bool, int) {
+func passEdges(fn *ssa.Function, g Guard) (map[Edge]bool, int) { return passEdgesD(fn, g, 0) }
+
+func passEdgesD(fn *ssa.Function, g Guard, depth int) (map[Edge]bool, int) {
 	edges := map[Edge]bool{}
 	n := 0
 	for _, b := range fn.Blocks {
@@ -755,6 +757,9 @@ func passEdges(fn *ssa.Function, g Guard) (map[Edge]bool, int) {
 		cd := normCond(ifi.Cond)
 		is, passTrue := g.Match(cd, ifi)
 		if !is {
+			is, passTrue = helperEstablishes(fn, cd, g, depth)
+		}
+		if !is {
 			continue
 		}
 		n++
@@ -766,6 +771,99 @@ func passEdges(fn *ssa.Function, g Guard) (map[Edge]bool, int) {
 		}
 	}
 	return edges, n
+}
+
+// helperEstablishes: the condition tests the result of a module helper h (its error being nil, or its
+// single boolean result being true) and h itself establishes g on every path to such a result - the
+// shape left behind when a guard sequence is extracted into a helper. Two levels deep at most.
+func helperEstablishes(fn *ssa.Function, cd Cond, g Guard, depth int) (bool, bool) {
+	if depth >= 2 || cd.Base == nil {
+		return false, false
+	}
+	call, idx := callOf(cd.Base)
+	if call == nil {
+		return false, false
+	}
+	h := call.Common().StaticCallee()
+	if h == nil || h.Blocks == nil || h == fn || !strings.HasPrefix(pkgPathOf(h), nebulaMod) {
+		return false, false
+	}
+	held := func(ret *ssa.Return, via *ssa.BasicBlock) bool {
+		edges, n := passEdgesD(h, g, depth+1)
+		if n == 0 {
+			return false
+		}
+		prev := reachable(h.Blocks[0], edges)
+		rb := ret.Block()
+		if via != nil {
+			if _, ok := prev[via]; !ok {
+				return true
+			}
+			for i, su := range via.Succs {
+				if su == rb && !edges[Edge{via, i}] {
+					return false
+				}
+			}
+			return true
+		}
+		_, reached := prev[rb]
+		return !reached
+	}
+	res := h.Signature.Results()
+	switch {
+	case cd.Kind == CondNotNil && isErrorType(cd.Base.Type()):
+		ei := errResultIndex(h)
+		if ei < 0 || (idx >= 0 && idx != ei) || (idx < 0 && res.Len() != 1) {
+			return false, false
+		}
+		succ := successReturns(h, ei)
+		if len(succ) == 0 {
+			return false, false
+		}
+		for _, s := range succ {
+			if !held(s.Instr.(*ssa.Return), s.ViaPred) {
+				return false, false
+			}
+		}
+		return true, cd.Neg
+	case cd.Kind == CondBool && idx < 0 && res.Len() == 1:
+		if b, ok := res.At(0).Type().Underlying().(*types.Basic); !ok || b.Kind() != types.Bool {
+			return false, false
+		}
+		n := 0
+		for _, b := range h.Blocks {
+			ret, ok := b.Instrs[len(b.Instrs)-1].(*ssa.Return)
+			if !ok {
+				continue
+			}
+			v := retResult(ret, 0)
+			if k, isK := boolConst(v); isK && !k {
+				continue
+			}
+			if phi, isPhi := v.(*ssa.Phi); isPhi && phi.Block() == b {
+				// judge each incoming edge that can carry true
+				for i, e := range phi.Edges {
+					if k, isK := boolConst(e); isK && !k {
+						continue
+					}
+					n++
+					if !held(ret, b.Preds[i]) {
+						return false, false
+					}
+				}
+				continue
+			}
+			n++
+			if !held(ret, nil) {
+				return false, false
+			}
+		}
+		if n == 0 {
+			return false, false
+		}
+		return true, !cd.Neg
+	}
+	return false, false
 }
 
 // mustPass checks that every path entry->sink crosses a pass edge of g. It returns ok, number of
